@@ -715,6 +715,71 @@ def draw_matrix_scenarios(rng, quick, formats):
     return execs
 
 
+def presentation_matrix_scenarios(rng, quick, formats):
+    """composite32 / compute_composite_region: every presentation of a mask (and of a source) -- in particular the
+       OPAQUE ones, which implementations replace by "no mask" / reduce operators for -- x its clip {none, one
+       rectangle, several} x {clip_sources, has_client_clip} x offsets x operators.  A clip that is enabled for sources
+       must bound the region whatever the image holds."""
+    W, H = MW, MH
+    kinds = [("a8", "bits a8 %d %d %%d 0" % (W + 1, H + 1)),
+             ("argb", "bits a8r8g8b8 %d %d %%d 0" % (W, H + 2)),
+             ("solid_opaque", "solid 65535 32768 255 65535"),
+             ("solid_half", "solid 32768 0 16384 32768"),
+             ("x888_normal", "bits x8r8g8b8 %d %d %%d 1" % (W - 3, H - 2)),
+             ("x888_pad", "bits x8r8g8b8 %d %d %%d 2" % (W - 2, H - 1)),
+             ("x888_1x1", "bits x8r8g8b8 1 1 %d 1"),
+             ("a8_1x1", "bits a8 1 1 %d 1"),
+             ("a8_reflect", "bits a8 5 3 %d 3"),
+             ("r565_normal", "bits r5g6b5 4 4 %d 1"),
+             ("grad_opaque", "linear 1 65535 65535"),
+             ("grad_opaque_pad", "linear 2 65535 65535"),
+             ("grad_half", "linear 1 65535 16384")]
+    clips = [("noclip", None), ("one", [[2, 1, 9, 4]]), ("multi", [[0, 0, 4, 3], [6, 2, 12, 6], [3, 4, 5, 6]])]
+    flagsets = [(1, 1), (1, 0), (0, 1)]
+    ops = ["SRC", "OVER", "IN", "ADD", "CLEAR", "OUT", "ATOP", "XOR"]
+    execs = []
+    k = 0
+    for fmt in formats:
+        st = min_stride(fmt, W) + (4 if k % 2 else 0)
+        gb, ga = 2 * st + 16, 2 * st + 32
+        for role in ("mask", "src"):
+            for kname, kdef in kinds:
+                for cname, clip in clips:
+                    for flags in (flagsets if clip is not None else [(0, 0)]):
+                        if quick and flags != (1, 1) and (k % 3):     # quick: the disabled-clip variants for a third
+                            k += 1
+                            continue
+                        k += 1
+                        lines = ["R pm_%s_%s_%s_%s_%d%d_%d" % (fmt, role, kname, cname, flags[0], flags[1], k)]
+                        lines.append("I dst %s %d %d %d %d %d %d" % (fmt, W, H, st, gb, ga, rng.randrange(1 << 30)))
+                        if k % 4 == 0:
+                            lines.append("C dst 2 0 0 7 6 8 1 12 5")
+                        other = "src" if role == "mask" else "mask"
+                        if role == "mask":
+                            lines.append(rng.choice(["I src solid 65535 0 32768 65535", "I src solid 4096 8192 0 16384",
+                                                     "I src bits a8r8g8b8 %d %d %d 1" % (W, H, rng.randrange(1 << 30))]))
+                        lines.append("I %s %s" % (role, (kdef % rng.randrange(1 << 30)) if "%d" in kdef else kdef))
+                        if role == "src" and k % 2:
+                            lines.append("I mask bits a8 %d %d %d 0" % (W + 1, H + 1, rng.randrange(1 << 30)))
+                        if clip is not None:
+                            lines.append("C %s %d %s" % (role, len(clip), " ".join(str(c) for b in clip for c in b)))
+                            lines.append("F %s %d %d" % (role, flags[0], flags[1]))
+                        lines.append("S")
+                        for off in [(0, 0), rng.choice([(1, -1), (-2, 0), (3, 2), (0, 1)])]:
+                            for b in ([0, 0, W, H], rng.choice([[1, 0, 11, 6], [-1, -1, W + 1, H + 1], [3, 1, 10, 5]])):
+                                # role's image offset: dest - image = off; the other image aligned with the destination
+                                ix, iy = b[0] - off[0], b[1] - off[1]
+                                if role == "mask":
+                                    a = (b[0], b[1], ix, iy, b[0], b[1], b[2] - b[0], b[3] - b[1])
+                                else:
+                                    a = (ix, iy, b[0], b[1], b[0], b[1], b[2] - b[0], b[3] - b[1])
+                                lines.append("region %d %d %d %d %d %d %d %d" % a)
+                                for op in rng.sample(ops[:4], 2) + [rng.choice(ops[4:])]:
+                                    lines.append("composite %s %d %d %d %d %d %d %d %d" % ((op,) + a))
+                        execs.append(lines)
+    return execs
+
+
 # ------------------------------------------------------------------------------------------
 
 def run_driver(exe, script_lines, wd, tag, chain):
@@ -887,7 +952,9 @@ def run(prop, args):
         mfm = [rng.choice(["a8r8g8b8", "x8r8g8b8", "r5g6b5"]), rng.choice(["a8", "a1"])] if quick else DIRECT + ["r8g8b8", "a4"]
         dfm = [rng.choice(["a1", "a4"]), rng.choice(["a8", "a8r8g8b8", "r5g6b5", "r8g8b8"])] if quick else \
             ["a1", "a4", "a8", "r8g8b8", "r5g6b5", "a8r8g8b8", "x8r8g8b8", "a1r1g1b1"]
-        directed = fill_matrix_scenarios(rng, quick, mfm, "frame") + draw_matrix_scenarios(rng, quick, dfm)
+        pfm = [rng.choice(["a8r8g8b8", "r5g6b5", "a8", "x8r8g8b8"])] if quick else ["a8r8g8b8", "x8r8g8b8", "r5g6b5", "a8", "a4", "r8g8b8"]
+        directed = fill_matrix_scenarios(rng, quick, mfm, "frame") + draw_matrix_scenarios(rng, quick, dfm) \
+            + presentation_matrix_scenarios(rng, quick, pfm)
         chk.extra["directed_matrix_executions"] = len(directed)
         nrand = len(execs)
         execs += directed
